@@ -5,15 +5,15 @@ prop("C04", pkg="c04",
           "sets (map[K]struct{}), structs, *struct, *scalar, **bool, embedded structs and *structs, union structs, named corpus types incl. a recursive one; "
           "tags required / optional / enum), 2-5 value recipes for it (boundary-weighted integers, special float bit patterns, list lengths 0/1/14/15/16/>16/127+), "
           "and a protocol schedule. Every value is put through Marshal/Unmarshal and a fresh Encoder/Decoder for all three protocols, through one Encoder and one "
-          "Decoder Reset before each value across the scheduled protocols, and through one Encoder/Decoder over a single stream. While the decoder defect "
-          "KF-C04-001 is listed as known, id layouts whose range exceeds the decoder's bitmap are rewritten to a narrower layout (counted in excluded_known) "
-          "so that the remaining clauses are still exercised. Non-trivial = at least one value of the case encodes >= 2 top-level fields; "
+          "Decoder Reset before each value across the scheduled protocols, and through one Encoder/Decoder over a single stream. The two defects found "
+          "(KF-C04-001, -002) are repaired in /repo and listed as fixed: the full domain is generated (id ranges beyond 64 in ~20 % of the types) and their "
+          "witnesses run as regression cases; only if such an entry were set back to 'known' would wide id layouts be rewritten (counted in excluded_known). Non-trivial = at least one value of the case encodes >= 2 top-level fields; "
           "distinct = FNV-64 of the serialised case (type descriptor, recipes, schedule).",
      quick=dict(shards=16, scale=1, timeout=600),
      thorough=dict(shards=16, scale=4, timeout=3000),
      technique="property-based testing (rapid) with generated Go struct types: round trip, reused-vs-fresh codec and cross-protocol metamorphic oracles under a "
                "reflection-based equality modulo nil/empty collections",
-     level_text="Exploration: ~0.19 M generated (type, values, codec schedule) cases per quick run (~2.3 M thorough) are round-tripped through all three protocols "
+     level_text="Exploration: ~0.26 M generated (type, values, codec schedule) cases per quick run (~1.0 M thorough, with up to 10 values per type) are round-tripped through all three protocols "
                 "and every codec mode; any value that does not come back equal (nil and empty collections identified, floats by bit pattern), any byte difference "
                 "between a reused and a fresh Encoder, any disagreement between protocols, and any panic is reported with the shrunk case. Nothing is proved "
                 "about types or values outside the generator's bounds (nesting depth <= 3 (4 thorough), <= 140 fields, collections <= 130 elements).",
@@ -25,4 +25,4 @@ prop("C04", pkg="c04",
      assumptions=["equality is 'mod nil/empty': nil and empty slices/maps are equal; floats compare by bit pattern (float map keys by ==)",
                   "the zero-omission of non-required fields is taken as documented behaviour, so -0.0 directly in a struct field is outside the domain",
                   "a union interface field is compared by the shape thrift_test.go documents: nil, or a pointer to a value equal to the single set member",
-                  "while KF-C04-001 is 'known' struct types whose id range exceeds 64*(nfields/64+1) are not generated (count in excluded_known)"])
+                  "thorough is limited to ~64 k fresh types per shard: the library's codec cache is copy-on-write, i.e. quadratic in the number of types per process"])
